@@ -922,10 +922,16 @@ def c04(tier, replay=None):
     chk = Check("C04", tier, "model_checking")
     T = chk.thorough()
     # (M) the ordering of define/declare blocks of init_at(0) + unroll for every use-classification of a shared signal
-    cfg = pv.write_cfg(chk.work / "Unroll.cfg", invariants=("Report",))
+    # (Repaired = TRUE: the encoder after fix 61f7cf6 - Sound is an invariant; Repaired = FALSE reports the configurations
+    # in which the encoder as found emitted a use before its definition or a second definition)
+    cfg = pv.write_cfg(chk.work / "Unroll.cfg", constants={"Repaired": "TRUE"}, invariants=("Sound",))
     r = pv.tlc_ok("Unroll", cfg, workers=4, timeout=1200)
     chk.add_states(r.generated, r.distinct)
-    chk.part("Unroll_model", configurations=r.distinct, note="configurations the model reports are the design-level image of known finding KF-C04-init-order")
+    cfg0 = pv.write_cfg(chk.work / "Unroll_as_found.cfg", constants={"Repaired": "FALSE"}, invariants=("Report",))
+    r0 = pv.tlc_ok("Unroll", cfg0, workers=4, timeout=1200)
+    chk.add_states(r0.generated, r0.distinct)
+    chk.part("Unroll_model", configurations=r.distinct, invariant="Sound (OnceOnly, BeforeUse, Available)",
+             as_found_bad_configurations=r0.out.count('"BADCFG"'))
     env = {"PATH": SOLVER_PATH + ":" + os.environ.get("PATH", "")}
     trace = chk.work / "trace.ndjson"
     if replay:
